@@ -32,7 +32,23 @@ def overrate_cases():
         out.append(mkcase(cfg, {"wa": dag("single", [1]),
                                 "wb": dag("single", [1])},
                           {"kind": "batch", "p": 1, "min": 1}))
+    # maxima that are not whole numbers per timestep: a rate between the
+    # maximum and the next whole number is above the maximum
+    for unit, hot_rate, rate, dur in (("seconds", 11.5, 12, 2),
+                                      ("seconds", 2.5, 3, 3),
+                                      ("minutes", 0.0125, 1 / 60, 120),
+                                      ("minutes", 0.04, 3 / 60, 60)):
+        obs = [mkobs("a", 0, dur, rate, 1, 1, "wa")]
+        cfg = mkcfg(CLUSTERS[1][0], obs, (10000, hot_rate), (10000, 100), 2,
+                    2, timestep=unit)
+        for alg in ({"kind": "queue"}, {"kind": "batch", "p": 1, "min": 1}):
+            out.append(mkcase(cfg, {"wa": dag("single", [1])}, alg))
     return out
+
+
+def _max_per_step(case):
+    return case["cfg"]["hot"][1] * world.unit_factor(
+        case["cfg"].get("timestep", "seconds"))
 
 
 def cases(tier, seed):
@@ -90,7 +106,7 @@ def run(rep, tier, seed):
         rep.scope("S-overrate")["executions"] += 1
         deps = [c for c in r.probe.calls if c["kind"] == "deposit"]
         bad = [c for c in deps if c["raised"] is None
-               and c["rate"] > case["cfg"]["hot"][1]]
+               and c["rate"] > _max_per_step(case) + 1e-9]
         if r.outcome != "exception" or bad:
             rep.violation("C07.over-rate-rejected",
                           "over-rate-ingest-accepted",
@@ -108,7 +124,7 @@ def replay(payload):
         r = runmod.execute(case, [], (), 60, True)
         deps = [c for c in r.probe.calls if c["kind"] == "deposit"]
         bad = [c for c in deps if c["raised"] is None
-               and c["rate"] > case["cfg"]["hot"][1]]
+               and c["rate"] > _max_per_step(case) + 1e-9]
         if r.outcome != "exception" or bad:
             return [{"clause": "C07.over-rate-rejected",
                      "cause": "over-rate-ingest-accepted", "detail": None}]
